@@ -179,4 +179,27 @@ def check(repo: Repo, rep: Report) -> None:
     rep.ob("E1-eventloop-guards", rn, f"run(): gathering stops at the first item with `due > now` (strict) ({[short(e, 30) for _, e in stops]})", bool(stops) and okb,
            "the event loop treats an item due exactly now as not yet due (`>=`): it is neither moved to the ready list nor waited for (0 s left), "
            "so the loop spins without ever running it — and schedule_absolute, which takes `dt <= now` as ready, disagrees on the boundary")
+    # ... and at scheduling time: `dt <= now` goes to the ready list
+    rdy = [x for x in sites(sa) if isinstance(x.node, ast.Call) and isinstance(x.node.func, ast.Attribute) and x.node.func.attr == "append" and "ready" in u(x.node.func.value)]
+    oka = False
+    for x in rdy:
+        for e, p_ in x.ctx.guards:
+            e2 = _et(sa, e) if isinstance(e, ast.Name) else e
+            if isinstance(e2, ast.Compare) and len(e2.ops) == 1 and any(isinstance(y, ast.Attribute) and y.attr == "now" for y in (e2.left, e2.comparators[0])):
+                opn = type(e2.ops[0]).__name__
+                if isinstance(e2.left, ast.Attribute) and e2.left.attr == "now":
+                    opn = {"Lt": "Gt", "LtE": "GtE", "Gt": "Lt", "GtE": "LtE"}.get(opn, opn)
+                oka = (p_ and opn == "LtE") or (not p_ and opn == "Gt")
+    rep.ob("E1-eventloop-guards", sa, "schedule_absolute: an item with `dt <= now` (inclusive) is ready at once", bool(rdy) and oka,
+           "schedule_absolute sends an item due exactly now to the timed queue: a later-submitted item with an earlier due time is pulled in "
+           "front of it by the merge — immediately-due actions run out of submission order")
+    # Scheduler.invoke_action keeps whatever disposable the action returned (any DisposableBase), so cancelling the item cancels
+    # the follow-up work the action scheduled
+    ia = repo.fn("reactivex/scheduler/scheduler.py", "Scheduler.invoke_action")
+    tests_ = [n_ for n_ in ia.direct_nodes() if isinstance(n_, ast.Call) and call_name(n_) == "isinstance" and len(n_.args) == 2]
+    rep.ob("E1-eventloop-guards", ia, f"invoke_action: `{short(tests_[0], 50) if tests_ else '?'}` keeps every DisposableBase the action returns",
+           len(tests_) == 1 and u(tests_[0].args[1]).split(".")[-1] == "DisposableBase",
+           "invoke_action keeps the action's result only if it is an instance of a narrower class than DisposableBase: a composite / serial / "
+           "multiple-assignment disposable returned by the action is replaced by a no-op, and disposing the scheduled item no longer cancels "
+           "the follow-up work — an action cancelled before it starts still runs")
     rule_invoke_guard(repo, rep, "S1-invoke-guard")
